@@ -108,10 +108,12 @@ def check(ctx, prog, scope, floor=1):
             continue   # a dedicated rule of this check already reads this body: the normal form adds nothing there
         if EXCLUDE.search(path):
             continue
-        ctx.visit(f)
         if not straight(f):
-            ctx.ob(R, "%s is branch-free and has its reviewed value" % f.short, False, "no longer branch-free", f.loc())
+            # the body changed form (a loop or a branch appeared): nothing to compare the normal form with.  Whether that is an alarm
+            # depends on whether a dedicated rule of this check reads the body - decided when the check finishes.
+            ctx.deferred.append((R, "%s is branch-free and has its reviewed value" % f.short, "no longer branch-free, and no other rule of this check reads the body", f.loc(), prog.cfg, (prog.cfg, f.path)))
             continue
+        ctx.visit(f)
         got = summary(f)
         # values are def-use expressions, so the ORDER of independent effects carries no information: compare as multisets
         ok = sorted(got) == sorted(want)
@@ -351,11 +353,11 @@ def check_paths(ctx, prog, scope, floor=1):
         n += 1
         if (prog.cfg, f.path) in ctx.analysed["functions"]:
             continue
-        ctx.visit(f)
         got = path_summary(prog, f) if loop_free(f) else None
         if got is None:
-            ctx.ob(R2, "%s keeps its reviewed (conditions -> result) table" % f.short, False, "no longer a loop-free, effect-free body", f.loc())
+            ctx.deferred.append((R2, "%s keeps its reviewed (conditions -> result) table" % f.short, "no longer a loop-free, effect-free body, and no other rule of this check reads it", f.loc(), prog.cfg, (prog.cfg, f.path)))
             continue
+        ctx.visit(f)
         ok = got == want
         why = "%d result site(s)" % len(got)
         if not ok:
